@@ -224,7 +224,7 @@ class Exec(ExprMixin, CallMixin):
                   'state established before the body runs', s.lineno)
     newh = h
     for n in list(h.names()):
-      if n == 'alloc':
+      if n == 'alloc' or n.startswith(('g:', 'ga:')):
         continue
       newh = newh.set(n, fresh('body_' + n.replace(':', '_'), heap_sort(n)))
     na = fresh('body_alloc', I)
